@@ -219,3 +219,65 @@ package sidx
 //@   requires bw != nil && br != nil
 //@   at-stmt "pendingBlock.reset()" requires nothing-unwritten-is-reset: !pendingBlock.holdsUnwritten || len(pendingBlock.block.userKeys) == 0
 //@   at-stmt "pendingBlockIsEmpty = true" requires the-pending-slot-is-emptied-only-when-nothing-unwritten-is-in-it: !pendingBlock.holdsUnwritten || len(pendingBlock.block.userKeys) == 0
+//
+//@ section C08
+//
+// Block pruning by tag filters. For an array-valued tag (string / int64 arrays) the per-block filter answers subset
+// questions only (ContainsAll); asking it MightContain - which a dictionary filter answers "no" for every array-valued
+// tag - would prune blocks that do hold the value. Having therefore uses MightContain for scalar tags only.
+//@ func tagFilterOp.getTagFilterCache
+//@   assumed loads (or finds in the cache) the filter, value type and min/max of one tag of the block
+//@   ensures result1 == nil ==> result0 != nil
+//@ func Filter.MightContain
+//@   assumed the per-block filter (bloom or dictionary; its own contracts are pkg/filter's)
+//@   pure
+//@ func Filter.ContainsAll
+//@   assumed the per-block filter (bloom or dictionary; its own contracts are pkg/filter's)
+//@   pure
+//@ func tagFilterOp.Having#scalar-lookup-only-for-scalar-tags
+//@   mode int
+//@   opt only-stated
+//@   requires tfo != nil
+//@   at-call MightContain requires never-for-an-array-valued-tag: cache.valueType != pbv1.ValueTypeStrArr && cache.valueType != pbv1.ValueTypeInt64Arr
+//
+//@ section C09
+//
+// buildCursorsForBatchSync: a block cursor joins the merge positioned on the first row of ITS loaded rows (ascending) or on
+// the last one (descending) - the rows that survived the key-range filter, not the block's stored row count.
+//@ func generateBlock
+//@   assumed pooled block
+//@ func releaseBlock
+//@   assumed pooled block
+//@ func generateBlockCursor
+//@   assumed pooled cursor
+//@   ensures result != nil && fresh(result)
+//@ func releaseBlockCursor
+//@   assumed pooled cursor
+//@ func blockCursor.init
+//@   assumed binds the cursor to a part and a block
+//@ func sidx.loadBlockCursor
+//@   assumed reads the block and keeps the rows inside the requested key range in bc.userKeys
+//@   modifies bc.userKeys
+//@   modifies bc.idx
+//@ func context.Context.Err
+//@   assumed context
+//@   pure
+//@ func sidx.buildCursorsForBatchSync#cursor-start
+//@   mode int
+//@   opt only-stated
+//@   requires s != nil && batch != nil
+//@   at-stmt "cursors = append(cursors, bc)" requires positioned-on-the-first-or-last-loaded-row: ite(asc, bc.idx == 0, bc.idx == len(bc.userKeys) - 1)
+//
+// appendElement: an element is recorded as "seen" (which suppresses later duplicates of the same data) only when it is
+// inside the requested key range, i.e. only when it is actually appended to the cursor.
+//@ func blockCursorBuilder.keyInRange
+//@   mode int
+//@   requires b != nil
+//@   ensures result == ((!b.hasMin || key >= b.minKey) && (!b.hasMax || key <= b.maxKey))
+//@ func blockCursorBuilder.markSeen
+//@   assumed records the element's data under its hash
+//@ func blockCursorBuilder.appendElement#seen-only-if-kept
+//@   mode int
+//@   opt only-stated
+//@   requires b != nil && b.block != nil && b.bc != nil
+//@   at-call markSeen requires only-an-in-range-row-is-marked-seen: (!b.hasMin || b.block.userKeys[index] >= b.minKey) && (!b.hasMax || b.block.userKeys[index] <= b.maxKey)
